@@ -788,7 +788,7 @@ SPECS = [
     RuleSpec("C03.R4", rule_r4, 4, "A5", "tempo and stop pairing: beats of a list zipped with that same list"),
     RuleSpec("C03.R5", rule_r5, 5, "A1", "per-chart header order equals the reader's positions"),
     RuleSpec("C03.R7", rule_r7, 5, "A7", "row index shapes: measure = beat // 4, position (beat mod 4)/4, row = num * rows/den, cell store"),
-    RuleSpec("C03.R6", rule_r6, 2, "A7", "note rows are as wide as the chart type's key count"),
+    RuleSpec("C03.R6", rule_r6, 2, "A7", "note rows, padding rows included, are as wide as the chart type's key count"),
     RuleSpec("C03.R9", rule_r9, 1, "A1", "#STOPS round trip: the reader stores what the writer emits"),
     RuleSpec("C03.D", rule_dep, 1, "M0", "rules of the shared code (timing engine, list classes, stacker) that the operations of this property reach"),
 ]
